@@ -10,7 +10,7 @@ from props import C20 as S
 PROP = "C10"
 META = {
     "technique": "Coq proof: monotone state machine + counting invariants (close accounting, table, notifications, 'whoever must finish the close is still there') over all schedules of an access-granular model of Close/close/halfClose and the callback goroutine's exit path, lifted to two ends joined by FIFO inboxes; tie: real session pairs driven through generated close scenarios (T) and the real instrumented stream.go under a controlled scheduler compared access by access with the model (S)",
-    "level_text": "C10_monotone, C10_callbacks_at_most_once, C10_final_flush, C10_peer and the full statement C10_full (at quiescence after a returned Close(): closed, out of the table, exactly one close callback, peer told unless it told us) hold for every schedule, any number of concurrent/repeated Close calls from any goroutine (inside OnData, while OnData runs, racing the peer's close notification), either mode; C10_propagates lifts it to both ends. The three former refutations (Close inside OnData, Close while OnData runs, close() losing its state CAS) were repaired in stream.go and are regression scenarios/examples. One forced hypothesis remains (callbacks installed before the run or SetCallbacks not racing Close: C10_setcallbacks_race_refuted, a two-instruction window).",
+    "level_text": "C10_monotone, C10_callbacks_at_most_once, C10_final_flush, C10_peer and the full statement C10_full (at quiescence after a returned Close(): closed, out of the table, exactly one close callback, peer told unless it told us) hold for every schedule, any number of concurrent/repeated Close calls from any goroutine (inside OnData, while OnData runs, racing the peer's close notification), either mode; C10_propagates lifts it to both ends. The three former refutations (Close inside OnData, Close while OnData runs, close() losing its state CAS) were repaired in stream.go and are regression scenarios/examples. Calls already pending at the close: C10_wake (closeNotifyCh is closed once nobody stands between the state transition and its report), C10_close_wakes_parked (a close() that waits for the callback goroutine has closed it before the Wait) and C10_parked_woken_by_close (an OnData parked in a read leaves its select); the harness compares closeNotifyCh with the model at the end of every controlled run (either mode), parks an OnData in a read across Close() calls under the scheduler, and parks real synchronous readers across a local / a peer close. One forced hypothesis remains (callbacks installed before the run or SetCallbacks not racing Close: C10_setcallbacks_race_refuted, a two-instruction window).",
     "level_note": "Known finding kept: data in flight to a stream the server already closed re-creates the stream id (session.getStream; protocol-level). Trusted: coqc kernel; sequential consistency; go/verisched; the session stays open (Session.Close is C14's); one FIFO transport (C07 owns queue/socket re-ordering); T scenarios are sampled real runs with generous time bounds, S schedules are sampled (random, sticky, systematic single pre-emption) plus the deterministic former-witness schedules.",
 }
 
@@ -25,6 +25,8 @@ SIG_RESIDUE = "C10:late-arrival-moved-into-recvBuf-after-clean-is-never-recycled
 
 def t_signature(c, msg):
     sc = c.get("scenario")
+    if msg.startswith("SIG:"):
+        return msg[4:].split("|")[0]
     if msg.startswith("setup:"):
         return "C10:harness-setup-failed"
     if msg.startswith("ghost:"):
